@@ -86,9 +86,10 @@ func H_C20_x2j() {
 			vAssert(vDeepEq(got[i], want[i]), "x2j: XmlValuesForPath equals Map.ValuesForPath")
 		}
 	case 6:
-		got, err := XmlUpdateValsForPath(x, key+":N", "r."+key)
+		up := []string{"r.", "nope.", "r.c."}[vChoose(3)] + key
+		got, err := XmlUpdateValsForPath(x, key+":N", up)
 		c2, _ := NewMapXml(x)
-		c2.UpdateValuesForPath(key+":N", "r."+key)
+		c2.UpdateValuesForPath(key+":N", up)
 		want, _ := c2.Xml()
 		vAssert(err == nil && string(got) == string(want), "x2j: XmlUpdateValsForPath equals UpdateValuesForPath then Xml")
 	case 7:
